@@ -79,7 +79,7 @@ def r2(ctx, fs):
     if offered != {'a0<a1', 'a1<a0'}:
         ctx.finding(rid, f.id, 'orders', 'state_variable::get_current_incs must offer both orderings of an overlapping pair (found %s)' % sorted(offered), node=comb)
     conds = [canon(n['slots']['cond'], env, subst=False) for n in walk(body) if n.get('k') == 'IfStmt' and 'sat_core::value' in show(canon(n['slots']['cond'], env, subst=False)) and '->second' not in '']
-    lq = [c for c in conds if 'a0_a1_it' in show(c) or 'a1_a0_it' in show(c)]
+    lq = [c for c in conds if '::leqs' in show(resolve(c))]         # the tests of the value of a stored ordering literal, whatever the iterators are called
     if len(lq) != 2 or any(not (c[0] == '!=' and 'smt::False' in c) for c in lq):
         ctx.finding(rid, f.id, 'orders/filter', 'an ordering may only be left out of the choices when its literal is already False (found %s)' % [show(c) for c in lq], node=comb)
 
